@@ -87,6 +87,7 @@ func runRx(c rxCase) *vh.Failure {
 				}
 				var got []byte
 				var err error
+				readCount := 0
 				switch o.K {
 				case "bytes":
 					got, err = q.Bytes(n)
@@ -104,6 +105,7 @@ func runRx(c rxCase) *vh.Failure {
 					}
 					var m int
 					m, err = q.Read(p)
+					readCount = m
 					if err == nil && m != n {
 						return fail("C15/read-count", "Read(p[%d]) returned n=%d, nil", n, m)
 					}
@@ -165,6 +167,19 @@ func runRx(c rxCase) *vh.Failure {
 				} else {
 					if !errors.Is(err, tds.ErrNotEnoughBytes) {
 						return fail("C15/short-read-not-reported", "%d bytes requested, only %d available, error = %v (want ErrNotEnoughBytes)", n, len(flat), err)
+					}
+					// what the failed attempt hands back anyway (documented: "the bytes that were
+					// available") must be bytes of the stream: never more than there are, never
+					// bytes nobody wrote
+					switch o.K {
+					case "bytes", "string":
+						if len(got) > len(flat) || !bytes.Equal(got, flat[:len(got)]) {
+							return fail("C15/short-read-invents-bytes", "%d bytes requested, %d available: the failed %s returned %x, available were %x", n, len(flat), o.K, got, flat)
+						}
+					case "read":
+						if m := readCount; m > len(flat) || m < 0 || !bytes.Equal(got[:m], flat[:m]) {
+							return fail("C15/short-read-invents-bytes", "Read(p[%d]) with %d available returned n=%d and p[:n]=%x, available were %x", n, len(flat), m, got[:minInt(m, len(got))], flat)
+						}
 					}
 					// everything available counts as consumed by the failed attempt
 					consumed += len(flat)
@@ -570,4 +585,11 @@ func TestTxExhaustive(t *testing.T) {
 		})
 	}
 	e.Done(fmt.Sprintf("tx: all sequences of <=%d ops over a 7-letter alphabet, initial packet size 9 and 10", maxLen))
+}
+
+func minInt(a, b int) int {
+	if a < b {
+		return a
+	}
+	return b
 }
